@@ -1489,11 +1489,14 @@ def _abort_flow(
         _get_readable_flow_state_hierarchy(state, flow_state.uid),
     )
 
-    # Restart the flow if it is an activated flow
+    # Restart the flow if it is an activated flow. A flow that failed before it ever
+    # reached a waiting statement would fail again right away, so restarting it
+    # would end in an infinite loop.
     if (
         not deactivate_flow
         and flow_state.activated > 0
         and not flow_state.new_instance_started
+        and flow_state.has_started
     ):
         event = flow_state.start_event(matching_scores)
         if (
